@@ -35,5 +35,11 @@ def alignedMallocReject (size : Nat) (alignment : Nat) : Bool :=
   ((!(isPowerOfTwo alignment)) || (decide ((0 : Nat) = size)))
 def alignedReallocReject (size : Nat) (alignment : Nat) : Bool :=
   (!(isPowerOfTwo alignment))
+def remapAlignedSize (newSize : Nat) (userOffset : Nat) (granularity : Nat) : Nat :=
+  (locAlignToBin ((newSize + userOffset) % 2^64))
+def remapRequestSize (newSize : Nat) (userOffset : Nat) (granularity : Nat) : Nat :=
+  (alignUp (((((40 : Nat) + (locAlignToBin ((newSize + userOffset) % 2^64))) % 2^64) + (64 : Nat)) % 2^64) granularity)
+def remapReject (newSize : Nat) (userOffset : Nat) (granularity : Nat) : Bool :=
+  (((decide ((locAlignToBin ((newSize + userOffset) % 2^64)) < newSize)) || (decide ((alignUp (((((40 : Nat) + (locAlignToBin ((newSize + userOffset) % 2^64))) % 2^64) + (64 : Nat)) % 2^64) granularity) < (locAlignToBin ((newSize + userOffset) % 2^64))))))
 
 end TbbVerif.Generated.C18
